@@ -5,8 +5,6 @@ Local Open Scope N_scope.
 
 (* normal form of an encoding: explicit conses for the fixed part *)
 Ltac consify := cbn [app be16 be32 be64 wenc_body wenc_attr concat map].
-Ltac nums := rewrite ?b2n_n2b_small, ?be_val_be16, ?be_val_be32, ?len_nat by lia.
-Ltac step := cbn [Nat.add]; shift; cbn [bind]; nums.
 
 Lemma notify_rt proto nt spi d :
   proto < 256 -> nt < 65536 -> len spi <= 255 ->
